@@ -205,7 +205,7 @@ theorem okNum {wd : Bool} {d : DT} {v : Rat} {s : Nat} (h : okKey wd (some (.num
 theorem okDT {wd : Bool} {f : DTF} (h : okKey wd (some (.dateTime f)) = true) : wd = true := by simpa [okKey] using h
 theorem okD {wd : Bool} {f : DF} (h : okKey wd (some (.date f)) = true) : wd = true := by simpa [okKey] using h
 
-/-- comparison of a numeric literal with a literal of another class `c`, whose datatype URI is on the side `lo` -/
+/-- on admitted literals `Literal.__lt__` is the lexicographic order (class in datatype-URI order, then the order inside the class) -/
 theorem litLt_eq (wd : Bool) (a b : Term) (ha : isLit a = true) (hb : isLit b = true)
     (oa : okKey wd (some a) = true) (ob : okKey wd (some b) = true) :
     litLt a b = if litCls a ≠ litCls b then Nat.blt (litCls a) (litCls b) else litInner a b := by
